@@ -340,6 +340,10 @@ def _(i, st, a, c):
 def _(i, st, a, c): return Agg('DVec4', tuple(a[0].items) + (a[1],))
 
 
+@model(r'DVec4::new')
+def _(i, st, a, c): return Agg('DVec4', list(a))
+
+
 @model(r'DVec3::new')
 def _(i, st, a, c): return V3(*a)
 
@@ -934,6 +938,23 @@ def _as_list(i, st, v):
         return list(v.items)
     if isinstance(v, Agg) and v.tag == 'Range' and len(v.items) == 2 and not is_z3(v.items[0]) and not is_z3(v.items[1]):
         return list(range(v.items[0], v.items[1]))
+    if isinstance(v, Agg) and v.tag == 'TakeIter':
+        # adaptor over a crate-local iterator (SimpleCycle2Iterator): drained through its real `next`
+        inner, n = v.items
+        if is_z3(n):
+            raise Unsupported('take() by a symbolic count')
+        hid = next(_tmp_ids)
+        st.heap[hid] = inner
+        out = []
+        for _ in range(n):
+            res = i.call(st, "<SimpleCycle2Iterator<'_> as Iterator>::next", [Ref(('H', hid))], {})
+            if len(res) != 1:
+                raise Unsupported('forking iterator inside an adaptor')
+            r = res[0][1]
+            if isinstance(r, Var) and r.name == 'None':
+                break
+            out.append(r.items[0])
+        return out
     raise Unsupported('iterator model: expected a list iterator, got %r' % (getattr(v, 'tag', v),))
 
 
